@@ -53,7 +53,9 @@ def build(M):
     for name, per in M["cf"].items():
         cd[name] = [G.to_numpy_rows(per[t]) for t, _ in M["blocks"]]
         arrays += cd[name]
-    return MeshFields(Mesh(pts, conn), pd, cd), arrays
+    f = MeshFields(Mesh(pts, conn), pd, cd)
+    f._verif_parts = (pts, conn, pd, cd)          # (harness attribute) the very arrays, to build further objects on them
+    return f, arrays
 
 
 def verdict(suite):
@@ -134,6 +136,15 @@ def run_history(ctx, rng, idx):
                         try:
                             list(a.diff_to(a))
                             list(sort(a).diff_to(sort(a)))
+                            # a second data set on the SAME arrays that lacks some of the fields: one-sided fields (NaN in the
+                            # difference) in both roles
+                            from fieldcompare.mesh import Mesh as _Mesh
+                            pts_, conn_, pd_, cd_ = a._verif_parts
+                            keep_p = {k: v for i, (k, v) in enumerate(pd_.items()) if i % 2 == 0}
+                            keep_c = {k: v for i, (k, v) in enumerate(cd_.items()) if i % 2 == 1}
+                            a_less = MeshFields(_Mesh(pts_, conn_), keep_p, keep_c)
+                            list(a.diff_to(a_less))
+                            list(a_less.diff_to(a))
                         except RuntimeError:
                             pass
                     elif op == "write":
@@ -187,6 +198,27 @@ def run_history(ctx, rng, idx):
                         meshio_utils.to_meshio(f)
                         if not (np.array_equal(p1, im.points) and np.array_equal(c1, im.connectivity(CellTypes.pixel))):
                             ctx.violation("E4", "points/connectivity of a structured mesh change after use", canon, executed=executed + [op])
+                        # curvilinear and rectilinear grids (2-d and 3-d): what the accessors hand out is the same on every
+                        # access, also after conversions and comparisons in between
+                        from fieldcompare.mesh import StructuredMesh, RectilinearMesh
+                        ext = rng.choice([(2, 1, 0), (1, 2, 0), (1, 1, 1), (2, 0, 1), (2, 0, 0)])
+                        gp = np.array([[float(i), float(j), float(k)] for k in range(ext[2] + 1) for j in range(ext[1] + 1)
+                                       for i in range(ext[0] + 1)])
+                        for sm in (StructuredMesh(ext, gp),
+                                   RectilinearMesh(ext, tuple(np.arange(e + 1, dtype=float) for e in ext))):
+                            cts = list(sm.cell_types)
+                            firsts = [np.array(sm.connectivity(ct)) for ct in cts]
+                            pfirst = np.array(sm.points)
+                            fs = MeshFields(sm, {"q": np.arange(float(len(pfirst)))}, {"c": [np.arange(float(len(firsts[0])))]})
+                            m1 = meshio_utils.to_meshio(fs)
+                            list(fs)
+                            sm.equals(sm)
+                            m2 = meshio_utils.to_meshio(fs)
+                            again = [np.array(sm.connectivity(ct)) for ct in cts]
+                            if not (all(np.array_equal(x, y) for x, y in zip(firsts, again)) and np.array_equal(pfirst, sm.points)
+                                    and all(np.array_equal(c1_.data, c2_.data) for c1_, c2_ in zip(m1.cells, m2.cells))):
+                                ctx.violation("E4", f"{type(sm).__name__}: points / connectivity handed out change between accesses", canon,
+                                              executed=executed + [op], extents=list(ext))
                 except Exception as e:  # noqa: BLE001
                     ragged = any(len({len(r) for r in rows}) > 1 for X in (M, N) for _, rows in X["blocks"])
                     if op in ("to_meshio", "from_meshio_roundtrip") and ragged:
